@@ -63,6 +63,13 @@ Example C14_nonvacuous_drain : exists x,
 Proof. exact drainleak_repaired. Qed.
 
 (* ---- after close() has returned ---- *)
+(* Scope: close() awaited on a task of its own (the application, as in every schedule of the model).  close() awaited from
+   INSIDE a callback - i.e. on the queue-consumer task (receive callback) or on the receive-loop / send() task (status
+   callback) - cancels the very task it runs on and is unwound by CancelledError; that is not a schedule of this transition
+   system.  Those sessions are decided on the real clients by the oracle of tools/props/c14.py (state CLOSED for ever, link
+   shut, no attempt, no receive callback afterwards, no pending task); the repair F-close-self-cancel (the consumer is
+   cancelled in a `finally`) was found and is checked there, and leaves the steps of close() on every modelled schedule
+   unchanged, so the model needs no switch for it. *)
 (* the queue consumer is finished: no receive callback can start or resume; the receive task is finished or was created
    after close() and will exit at its first step without reading: no `_receive_impl` call *)
 Theorem C14_after_close_returned : forall k x,
